@@ -20,6 +20,7 @@ import math
 
 from mc import engine
 from mc.ref import frets as RF
+from mc.ref import pitch as P
 from mc.ref import tab as RT
 from mc.ref import values as V
 
@@ -185,6 +186,26 @@ def run_frets(case):
     if op is None:
         return
     mf = 24 if maxfret is None else maxfret
+    if form == "spelled":
+        # every spelling (letter + up to two accidentals, any order) of every pitch within reach of the strings:
+        # the fret depends on the pitch, however the note is spelled (Cb-4 is B-3, B#-3 is C-4)
+        n = 0
+        for octave in range(0, 10):
+            for name in P.names(2):
+                p = P.note_int(name, octave)
+                if p < 0 or p > 127 or not (min(op) - 2 <= p <= max(op) + mf + 2):
+                    continue
+                for arg in (Note(name, octave), "%s-%d" % (name, octave)):
+                    got = tv.obj.find_frets(arg) if maxfret is None else tv.obj.find_frets(arg, maxfret)
+                    want = RF.frets(op, p, mf)
+                    n += 1
+                    if not isinstance(got, list) or got != want:
+                        S.problem("find_frets(%s-%d, maxfret=%r)" % (name, octave, maxfret), want, got, detail={"open": op, "pitch": p})
+                if len(name) > 1 and (P.NAT[name[0]] + P.net(name) < 0 or P.NAT[name[0]] + P.net(name) > 11):
+                    S.count("frets_spellings_crossing_the_octave")
+        S.trans(n)
+        S.outcome(("spelled", n))
+        return
     for p in range(0, 128):
         arg = mknote(p) if form == "note" else mkstr(p)
         got = tv.obj.find_frets(arg) if maxfret is None else tv.obj.find_frets(arg, maxfret)
@@ -969,6 +990,81 @@ def gen_tab_attr(tkey):
                 yield [tkey, a, b, 60]
 
 
+# ---------------------------------------------------------------------------------------
+# clause: tab_rerender -- a bar rendered, edited in place and rendered again shows its new content
+# ---------------------------------------------------------------------------------------
+RERENDER_ENTRIES = [[["4", [0, 7]], ["4", [5]]], [["2", [3]], ["4", None], ["4", [12, 16]]], [["4", [2, 9, 14]]]]
+RERENDER_EDITS = [["transpose", "3", True], ["transpose", "5", False], ["augment"], ["diminish"], ["setitem", 0, [4, 11]],
+                  ["transpose", "7", True, 4], ["refill"]]
+
+
+def _render_outcome(fn, *args, **kw):
+    try:
+        return ("text", fn(*args, **kw))
+    except ALLOWED_ERRORS as e:
+        return ("refused", type(e).__name__)
+
+
+def run_tab_rerender(case):
+    """case = [tkey | None, entries index, edit, width]: entries are (value, offsets above the lowest open string)."""
+    S = engine.S
+    tkey, ei, edit, width = case
+    tv = view(tkey)
+    low = min(tv.opens())
+
+    def build(entries):
+        b = Bar("C", (4, 4))
+        for v, offs in entries:
+            if offs is None:
+                b.place_rest(V.BY_LABEL[v][1])
+            else:
+                b.place_notes(NoteContainer([mknote(low + o) for o in offs]), V.BY_LABEL[v][1])
+        return b
+
+    def apply(b):
+        if edit[0] == "transpose":
+            for _ in range(edit[3] if len(edit) > 3 else 1):
+                b.transpose(edit[1], edit[2])
+        elif edit[0] == "augment":
+            b.augment()
+        elif edit[0] == "diminish":
+            b.diminish()
+        elif edit[0] == "setitem":
+            b[edit[1]] = NoteContainer([mknote(low + o) for o in edit[2]])
+        elif edit[0] == "refill":
+            vals = [e[1] for e in b.bar]
+            b.empty()
+            for k, v in enumerate(vals):
+                b.place_notes(NoteContainer([mknote(low + 1 + 2 * k)]), v)
+
+    entries = RERENDER_ENTRIES[ei]
+    kw = _kw(tv, "width", width)
+    bar = build(entries)
+    first = _render_outcome(tablature.from_Bar, bar, **kw)
+    apply(bar)
+    second = _render_outcome(tablature.from_Bar, bar, **kw)
+    twin = build(entries)                      # same construction, same edit, never rendered before the edit
+    apply(twin)
+    fresh = _render_outcome(tablature.from_Bar, twin, **kw)
+    S.trans(3)
+    S.count("rerenders")
+    if first != fresh:
+        S.count("rerenders_where_the_edit_changed_the_tab")
+    S.outcome((edit[0], second[0], first == second))
+    if second != fresh:
+        S.problem("from_Bar of a bar that was rendered, changed by %r and rendered again" % (edit,),
+                  fresh[1].split("\n") if fresh[0] == "text" else list(fresh),
+                  second[1].split("\n") if second[0] == "text" else list(second),
+                  detail="differs from the tab of an identical bar that was not rendered before the change")
+
+
+def gen_tab_rerender(tkey):
+    for ei in range(len(RERENDER_ENTRIES)):
+        for edit in RERENDER_EDITS:
+            for width in (None, 60):
+                yield [tkey, ei, edit, width]
+
+
 WIDTHS = [40, 60, 80, 100, 120, 150]
 
 
@@ -1220,6 +1316,7 @@ CLAUSES = {
     "tab_note": run_tab_note,
     "tab_container": run_tab_container,
     "tab_attr": run_tab_attr,
+    "tab_rerender": run_tab_rerender,
     "tab_bar": run_tab_bar,
     "tab_track": run_tab_track,
     "tab_composition": run_tab_composition,
@@ -1234,6 +1331,8 @@ def _gen_frets(idx):
         yield [key, dk, mf, "note"]
     yield [key, dk, None, "str"]
     yield [key, dk, 12, "str"]
+    yield [key, dk, None, "spelled"]
+    yield [key, dk, 12, "spelled"]
 
 
 def _gen_get_note(idx):
@@ -1304,6 +1403,10 @@ def explore(ctx):
         ctx.product("tab_note", [(i, tier) for i in range(ntab)], gen_tab_note)
     if ctx.want("tab_container"):
         ctx.product("tab_container", [(i, tier) for i in range(ntab)], gen_tab_container)
+    if ctx.want("tab_rerender"):
+        ctx.product("tab_rerender", ctx.pick(DEEP_Q[:3], DEEP_Q + DEEP_T), gen_tab_rerender)
+        if not ctx.only:
+            ctx.guard("re-renderings where the edit changed the tab", ctx.counter("rerenders_where_the_edit_changed_the_tab"), 30)
     if ctx.want("tab_attr"):
         ctx.product("tab_attr", ctx.pick(DEEP_Q[:3], DEEP_Q + DEEP_T), gen_tab_attr)
     if ctx.want("tab_bar"):
